@@ -49,6 +49,23 @@ fn endpoints() -> Vec<Ep> {
             bodies: vec![("null", true), ("{\"name\":\"n\",\"count\":1,\"ratio\":0.5}", true), ("{\"name\":\"n\",\"count\":1,\"ratio\":0.5,\"bogus\":1}", false), ("{\"name\":\"n\",\"count\":1,\"ratio\":0.5} null", false), ("{\"name\":\"n\"", false), ("", false)],
             optional: true,
         },
+        // the same optional bodies on endpoints that also carry a size-limit tag (bodies far below it)
+        Ep {
+            name: "limitOptional",
+            uri: "/u/body/limitopt",
+            handler: "limit_optional",
+            limit: 50 * 1024 * 1024,
+            bodies: vec![("null", true), ("{\"name\":\"n\",\"count\":1,\"ratio\":0.5}", true), ("{\"name\":\"n\",\"count\":1,\"ratio\":0.5,\"bogus\":1}", false), ("{\"name\":\"n\"", false), ("", false)],
+            optional: true,
+        },
+        Ep {
+            name: "limitAliasOpt",
+            uri: "/u/body/limitaliasopt",
+            handler: "limit_alias_opt",
+            limit: 50 * 1024 * 1024,
+            bodies: vec![("null", true), ("\"s\"", true), ("\"s\"\"t\"", false), ("\"s", false), ("", false)],
+            optional: true,
+        },
         Ep {
             name: "bodyAliasOpt",
             uri: "/u/body/aliasopt",
@@ -169,7 +186,7 @@ pub fn run(args: &Args) -> Report {
         }
     }
     report.sample("limit", json!({"endpoint": "smallBody (server-limit-request-size: 8b)", "body": "\"abcdefg\"", "chunks": "3-byte", "expect": "rejected: 9 bytes"}));
-    report.bound("endpoints", json!(["smallBody", "bodyCollections", "bodyOptional", "bodyAliasOpt", "bodyUnion"]));
+    report.bound("endpoints", json!(["smallBody", "kbBody", "kibBody", "bodyCollections", "bodyOptional", "limitOptional", "limitAliasOpt", "bodyAliasOpt", "bodyUnion"]));
     report.bound("request_chunk_sizes", json!(["whole", 1, 3, 4]));
     report.nontrivial = report.states;
     report.rule = "states = (generated endpoint, body, Content-Type, request chunking): the handler must be invoked exactly once iff the body is one valid document within the endpoint's limit under a registered Content-Type (or the body is optional and no Content-Type is given); otherwise INVALID_ARGUMENT and zero invocations; blocking and async endpoints".into();
